@@ -41,6 +41,8 @@ def step (line : String) : String :=
   | ["sdecode", p, c] => guarded (parseCps c) (Us.decode (p == "1"))
   | ["senc", "0", c] => guarded (parseCps c) Us.encode
   | ["senc", "1", c] => guarded (parseCps c) Us.encodeValue
+  | ["senc", "2", c] => guarded (parseCps c) Us.encodeCheckEscaped
+  | ["senc", "3", c] => guarded (parseCps c) Us.encodeValueCheckEscaped
   | ["srt", "0", p, c] => guarded (parseCps c) (fun s => Us.decode (p == "1") (Us.encode s))
   | ["srt", "1", p, c] => guarded (parseCps c) (fun s => Us.decode (p == "1") (Us.encodeValue s))
   | ["shost", c] =>
